@@ -66,7 +66,7 @@ func runC18(c *Ctx) {
 		"(R1) every store to Reader.Msg in the library is one of: a left-advance v[a:] of the current window (no upper bound), an extension v[:h] of a window whose length is proved to be 0 at that point (so the new window starts at the high-water mark), a fresh make, or nil; no other field of the reader and no package variable keeps a byte slice (no second handle through which old bytes could be re-exposed); Go slices cannot move their start backwards, so a new window is disjoint from every view handed out before. " +
 		"(R2) the only writes into the window's backing array are io.ReadFull into the window just produced by reset; nothing appends to, copies into or stores through a window-derived slice. (R3) package wire only reads the window. A 'reuse the buffer' optimisation (Msg = buf[:n], Msg = Msg[:0], a retained chunk or pool) violates R1 at that store."
 	R.Assumptions = []string{"user code does not assign the exported Reader.Msg field itself"}
-	R.Explanation += " (R2) also: clear(), encoding/binary Put*, Read and io.ReadAtLeast into window-derived slices are writes."
+	R.Explanation += " (R5) byte views returned by the exported accessors are capacity-limited (v[:n:n]). (R2) also: clear(), encoding/binary Put*, Read and io.ReadAtLeast into window-derived slices are writes."
 	R.Trusted = []string{"go/types + go/ssa", "Go slice semantics: v[a:] shares the allocation and never starts before v"}
 	sum := c.summaries("C18.R1")
 	mods := c.modSets()
@@ -318,5 +318,44 @@ func runC18(c *Ctx) {
 	// what a handler was given (a portal's parameter and format slices, a statement's lists) is not rewritten by a
 	// later message: the objects holding them are written only while they are constructed
 	c.constructOnly("C18.R4", "slices handed to handlers through a portal / statement are never rewritten by a later message", "the backing array of values a handler may still hold is overwritten by the next Bind / Parse")
+	// ---------- R5: a byte view handed out by an accessor cannot be grown into its neighbours: it is cut with a
+	// capacity limit (v[:n:n]), so an append by whoever holds it reallocates instead of overwriting the bytes that follow
+	// (the next parameter value, later messages in the same allocation)
+	nViews := 0
+	for _, fn := range c.P.ScopeFuncs() {
+		if !c.P.InPkg(fn, "buffer") || fn.Signature.Recv() == nil || !token.IsExported(fn.Name()) || fn.Signature.Results().Len() == 0 {
+			continue
+		}
+		if n := core.NamedOf(fn.Signature.Recv().Type()); n == nil || n.Obj().Name() != "Reader" {
+			continue
+		}
+		if !isByteSliceLike(fn.Signature.Results().At(0).Type()) {
+			continue
+		}
+		var l *core.Lin
+		for _, r := range returns(fn) {
+			v := forwardLoad(r.Results[0])
+			if core.IsNilConst(v) {
+				continue
+			}
+			if l == nil {
+				l = core.NewLin(c.P, fn, mods, sum)
+			}
+			if !msgDerived(l, v, 0) {
+				continue
+			}
+			nViews++
+			sl, isSlice := v.(*ssa.Slice)
+			limited := isSlice && sl.Max != nil && sl.High != nil && (sl.Max == sl.High || sameConst(sl.Max, sl.High))
+			R.Check(limited, "C18.R5", fkey(fn)+":view-capacity-limited", c.at(r), "a byte view handed out of the message window has no spare capacity (v[:n:n]): appending to it cannot overwrite the bytes behind it", "three-index slice with max == high", "the view returned by "+fname(fn)+" keeps the capacity of the whole read buffer: an append by the handler (a common idiom) silently overwrites the following parameter values and later messages that share the allocation")
+		}
+	}
+	R.Floor("C18.R5", "window views returned by exported accessors", nViews, 1)
 	R.Check(true, "C18.R3", "wire-reads-only", "-", "package wire only reads the message window", sprintf("%d accesses in package wire, none is a store", nLoads), "")
+}
+
+func sameConst(a, b ssa.Value) bool {
+	x, ok1 := core.ConstInt(a)
+	y, ok2 := core.ConstInt(b)
+	return ok1 && ok2 && x == y
 }
